@@ -253,7 +253,7 @@ class XGen:
         r = self.rng
         kids = []
         if self.maybe(0.45):
-            sid = r.choice(PSTYLES)[0] if not self.maybe(self.dangling) else "UndefinedP%d" % r.randint(1, 2)
+            sid = r.choice(PSTYLES)[0] if not self.maybe(self.dangling) else (("UndefinedP%d" % r.randint(1, 2)) if self.maybe(0.5) else ("Undefined%d" % r.randint(1, 3)))   # an undefined id may be used by paragraphs AND runs
             kids.append(X("w:pStyle", {"w:val": sid}))
         if self.numbering_on and self.maybe(0.25):
             np = []
@@ -441,6 +441,22 @@ class XGen:
         r = self.rng
         p = self.pkg
         p.body = self.blocks(0, n if n is not None else r.randint(1, 6))
+        if self.notes_on and self.tables and self.maybe(0.15):
+            # a table with a leading header row: note (and comment) references in the header row AND in the body rows —
+            # reading order runs through the header first
+            def ref_cell():
+                ty = r.choice(["footnote", "endnote"])
+                nid = str(len(self.note_ids[ty]) + 2)
+                self.note_ids[ty].append(nid)
+                kids = [X("w:t", {}, [XT(self.text())]), X("w:%sReference" % ty, {"w:id": nid})]
+                if self.comments_on and self.maybe(0.4):
+                    cid = str(len(self.comment_ids))
+                    self.comment_ids.append(cid)
+                    kids.append(X("w:commentReference", {"w:id": cid}))
+                return X("w:tc", {}, [X("w:p", {}, [X("w:r", {}, kids)])])
+            rows = [X("w:tr", {}, [X("w:trPr", {}, [X("w:tblHeader")]), ref_cell(), ref_cell()])] + \
+                   [X("w:tr", {}, [ref_cell(), ref_cell()]) for _ in range(r.choice([1, 2]))]
+            p.body.insert(r.randint(0, len(p.body)), X("w:tbl", {}, [X("w:tblPr"), X("w:tblGrid")] + rows))
         if self.maybe(0.4):
             p.body.append(X("w:sectPr", {}, [X("w:pgSz", {"w:w": "11906"})]))
         if not self.maybe(self.optional_absent):
